@@ -4,7 +4,7 @@ CONSTANTS
   Kinds = {"tx", "block", "header", "stateroot", "extensible", "consensus", "notaryreq", "aer", "nef", "manifest", "contract", "mptnode", "rule", "signer", "item"}
   K = 4
   Dev = {}
-  Quirks = {"SizeOfReceived", "EncodeMarksObject", "JsonLosesArgs"}
+  Quirks = {"JsonLosesArgs"}
   Origins = {"canon", "nc-signed", "nc-unsigned"}
   Mode = "enum"
 INVARIANTS Emit
